@@ -3,6 +3,7 @@ package exporter
 import (
 	"encoding/json"
 	"errors"
+	"net/http"
 	"sort"
 	"strconv"
 	"strings"
@@ -98,6 +99,11 @@ func (s *OpenAPI3Exporter) GenerateOpenAPI3(app *syslwrapper.App) (*openapi3.T, 
 		if len(epPath) > 1 {
 			method = strings.Split(v.Path, " ")[0]
 			path = strings.Split(v.Path, " ")[1]
+			if !isHTTPMethod(method) {
+				// not a REST endpoint (a subscription "Pub -> Evt", a plain endpoint whose
+				// name has blanks): nothing to export, and AddOperation would panic
+				continue
+			}
 		} else {
 			method = "GET"
 			path = v.Path
@@ -249,4 +255,14 @@ func parseResponseCode(response string) int {
 func SyslRefToJSONSchema(syslRef string) string {
 	reference := strings.Split(syslRef, ".")
 	return "#/components/schemas/" + reference[1]
+}
+
+// isHTTPMethod reports whether method is one of the methods an OpenAPI path item can hold.
+func isHTTPMethod(method string) bool {
+	switch method {
+	case http.MethodConnect, http.MethodDelete, http.MethodGet, http.MethodHead, http.MethodOptions,
+		http.MethodPatch, http.MethodPost, http.MethodPut, http.MethodTrace:
+		return true
+	}
+	return false
 }
